@@ -1,4 +1,5 @@
 import OrbitModel.Model.Instance
+import OrbitModel.Proofs.GenEqTopic
 /-!
 # C09 — databases opened by the same process do not affect one another
 -/
@@ -47,5 +48,10 @@ theorem pinned_tree_cross_talk :
   exact other_databases_untouched _ _ (by decide)
 
 example : (deliver false { addr := 1 } (.write 1 [7])).published = [(1, [7])] := by decide
+
+/-- the pubsub topic a store subscribes to in the Go text of this run is named by its address — the
+one thing no two databases share (`published_under_own_address` is about that topic) -/
+theorem store_topic_is_its_address_tied_to_go_text : Gen.storeTopicIsAddress = true :=
+  gen_store_topic_is_address
 
 end Orbit.C09
